@@ -397,15 +397,27 @@ func (e *ControllerEngine) StartWatches(name string, ws ...Watch) error {
 	c.mx.Lock()
 	defer c.mx.Unlock()
 
+	// Another Goroutine may have started watches, and thereby informers, since
+	// we listed the active informers above. Restarting a watch whose informer
+	// is in fact active would orphan the event handler of the watch it
+	// replaces, so we list them again now that we hold the lock.
+	a = e.infs.ActiveInformers()
+	activeInformer = make(map[schema.GroupVersionKind]bool, len(a))
+	for _, gvk := range a {
+		activeInformer[gvk] = true
+	}
+
 	// Start new sources.
+	started := make(map[WatchID]bool, len(ws))
 	for i, w := range ws {
 		wid := WatchID{Type: w.wt, GVK: gvks[i]}
 
 		// We've already created this watch and the informer backing it is still
 		// running. We don't need to create a new watch. We don't debug log this
 		// one - we'll have logged it above unless the watch was added between
-		// releasing the read lock and taking the write lock.
-		if _, watchExists := c.sources[wid]; watchExists && activeInformer[wid.GVK] {
+		// releasing the read lock and taking the write lock. The same goes for
+		// a watch we just started, if the caller supplied it more than once.
+		if _, watchExists := c.sources[wid]; watchExists && (activeInformer[wid.GVK] || started[wid]) {
 			continue
 		}
 
@@ -424,6 +436,7 @@ func (e *ControllerEngine) StartWatches(name string, ws ...Watch) error {
 
 		// Record that we're now running this source.
 		c.sources[wid] = src
+		started[wid] = true
 
 		e.log.Debug("Started watching GVK", "controller", name, "watch-type", wid.Type, "watched-gvk", wid.GVK)
 	}
